@@ -147,7 +147,9 @@ def bounded(uni, tier, seed):
         ev, dist, fails, samples = cascade.sweep(2, stride=5, offset=seed % 5)
         return {"evaluations": ev, "distinct_nontrivial": dist, "failures": fails, "samples": samples,
                 "rule": "every 5th 2-Einsum cascade of props/cascade.py (6 Einsum shapes x mapping variants x 2 "
-                        "rank orders): text added by Einsum i == its stand-alone compilation up to tmp numbering "
+                        "rank orders; producer/consumer pairs over a rank named I always): text added by Einsum i "
+                        "== its stand-alone compilation up to tmp numbering; each result is left bound to "
+                        "T<i>_<declared ranks> and every T<j>_... name read was bound earlier "
                         "(bounded; not counted as proved)"}
     ev, dist, fails, samples = cascade.sweep(2)
     ev3, dist3, fails3, _ = cascade.sweep(3, stride=97, offset=seed % 97)
@@ -155,5 +157,5 @@ def bounded(uni, tier, seed):
     return {"evaluations": ev + ev3 + nev, "distinct_nontrivial": dist + dist3, "failures": fails + fails3 + nfail,
             "samples": samples,
             "rule": "all 2-Einsum cascades and every 97th 3-Einsum cascade of props/cascade.py vs stand-alone "
-                    "compilation; plus every sidecar generator input through the real functions with the contracts "
+                    "compilation, intermediates left under the names later Einsums read; plus every sidecar generator input through the real functions with the contracts "
                     "evaluated natively (bounded; not counted as proved)"}
